@@ -180,6 +180,30 @@ func TestReplayC19(t *testing.T) {
 		}
 		p.Shutdown()
 	})
+	t.Run("manager", func(t *testing.T) {
+		// the manager's very first announcement falls into an outage; after the daemon is back the request is
+		// announced (the provider keeps it); when the application withdraws it, it must disappear
+		p, srv := c19Provider()
+		m := NewMDNS("aabb", "brand", "model", "type", "serial", nil, "shipid", "svc", 4711, nil, MdnsProviderSelectionAvahiOnly)
+		m.mdnsProvider = p
+		if !p.Start(true, c19CB) {
+			t.Fatal("start failed")
+		}
+		srv.down()
+		p.avahiCallback(avahi.Disconnected)
+		time.Sleep(200 * time.Millisecond)
+		_ = m.AnnounceMdnsEntry() // fails: the daemon is away
+		srv.back()
+		time.Sleep(2500 * time.Millisecond)
+		if got := srv.announced(); len(got) != 1 {
+			t.Errorf("after the daemon came back the requested announcement is not active: %v", got)
+		}
+		m.UnannounceMdnsEntry()
+		if got := srv.announced(); len(got) != 0 {
+			t.Errorf("REPRODUCED: the application withdrew the announcement, but %v is still announced (the manager had forgotten that a request was pending at the provider)", got)
+		}
+		p.Shutdown()
+	})
 	t.Run("shutdown", func(t *testing.T) {
 		p, srv := c19Provider()
 		if !p.Start(true, c19CB) {
